@@ -42,8 +42,24 @@ var vkBNames = []string{"a", "ab", "Cd", "a/b", "b_1"}
 // the document is {"<key>":7} with a fully symbolic key literal body of K bytes
 // (raw bytes, simple escapes and \u escapes all arise from the free bytes).
 func H_C15_keys(t *verifrt.T) {
-	k := t.Param("K")
-	key := t.Bytes("key", k)
+	var key []byte
+	if units := t.Param("UNITS"); units > 0 {
+		// unit family: each unit is a symbolic byte, a backslash + symbolic byte, or \u00 + two symbolic bytes
+		nu := 1 + t.Choice("units", units)
+		for u := 0; u < nu; u++ {
+			switch t.Choice("unit", 3) {
+			case 0:
+				key = append(key, t.Byte("c"))
+			case 1:
+				key = append(key, '\\', t.Byte("e"))
+			case 2:
+				key = append(key, '\\', 'u', '0', '0', t.Byte("h0"), t.Byte("h1"))
+			}
+		}
+	} else {
+		k := 1 + t.Choice("klen", t.Param("K"))
+		key = t.Bytes("key", k)
+	}
 	doc := append([]byte(`{"`), key...)
 	doc = append(doc, `":7}`...)
 	lit := append(append([]byte{'"'}, key...), '"')
